@@ -38,7 +38,7 @@ ASSUMPTIONS = [
 ]
 PROBES = ["outcome:returned", "outcome:PSException", "truncation", "replace", "remove", "ref-loop", "payload"]
 TIERS = {
-    "quick": {"budget_s": 50, "stride": 3},
+    "quick": {"budget_s": 90, "stride": 1},
     "thorough": {"budget_s": 1500, "stride": 1},
 }
 EXHAUSTIVE = {"thorough": True}
